@@ -32,6 +32,8 @@ Program(p) ==
            <<G("exp.fire"), A("E"), G("exp.locked"), X("checkstopped"),
              A("M"), Rl("M"), X("usedb"),                 \* nextExpiration / ListDataStores through db()
              A("F"), A("M"), X("usedb"), Rl("M"), Rl("F"), \* Delete: feed order mutex, then the transaction
+             A("M"), Rl("M"), X("usedb"),                 \* the timer is armed again from the earliest remaining deadline
+             G("exp.done"),                               \* ... and only then does the callback let go of the expiry mutex
              Rl("E")>>
       [] p = "cad" ->       \* Bucket.CloseAndDelete
            IF StopFirst
